@@ -363,4 +363,25 @@ PROPS = {
              "shards": 10, "clauses": ["dmax", "wellformed", "packed", "allsky", "full_truthful", "tight"]},
         ],
     },
+    "C16": {
+        "level": "exploration",
+        "claim": "What the specification decides: (a) best_starting_depth is the deepest depth whose table entry exceeds r - the unrolled binary "
+                 "search is transcribed in TLA+ and model-checked equal to the definition on all 61 order classes of r relative to an abstract "
+                 "strictly decreasing table; TLC generates the classes, the harness instantiates them on the table the crate actually uses (read "
+                 "through a cfg-guarded accessor: T[d], next float up / down, midpoints) and compares, plus refusal above the depth-0 limit and "
+                 "monotonicity of the table; (b) the 9-cell claim: at best_starting_depth(r) every cell that provably contains a point of the cone "
+                 "is the centre's cell or adjacent to it in the specification's adjacency. What the bridge measures and TLC only thresholds: (c) the "
+                 "bound >= true centre-to-farthest-vertex distance (exact vertices from the spec) for cells at random positions, and for the "
+                 "_with_radius variants over sampled cells whose centre lies within the radius. Level exploration: the inequalities themselves "
+                 "are not something TLC decides.",
+        "rule": "events = c2v (cell, position in the cell, bound vs truth), c2v_radius (position, radius, scalar and per-depth array bounds vs "
+                "sampled cells in the disc), fits9 (cone at its best starting depth); non-trivial = all distinct events",
+        "assumptions": GEO_ASSUME,
+        "stages": [
+            {"kind": "mc", "module": "Lookup", "cfg": "MC_Lookup.cfg", "workers": 2},
+            {"kind": "mc", "module": "MC_Geo", "cfg": {"quick": "MC_Geo.cfg", "thorough": "MC_Geo_thorough.cfg"}, "workers": 6},
+            {"kind": "gen", "module": "Gen_Lookup", "cfg": "Gen_Lookup.cfg", "scenario": "C16a", "exhaustive": True},
+            {"kind": "rec", "scenario": "C16", "count": {"quick": 8000, "thorough": 200000}, "trace_module": "Trace_Geo", "trace_cfg": "Trace_Geo.cfg"},
+        ],
+    },
 }
